@@ -12,6 +12,7 @@ import (
 	"path/filepath"
 	"regexp"
 	"sort"
+	"strconv"
 	"strings"
 	"time"
 
@@ -90,13 +91,14 @@ func (c17) Generate(r *core.Rng, run int, tier string) *core.History {
 			name = core.Pick(r, used) // the same name again, at another position
 		}
 		used = append(used, name)
+		qn := strconv.Quote(name) // quoted: NUL and non-UTF-8 bytes must survive the JSON history file
 		switch k := r.Intn(12); {
 		case k < 5:
-			h.Events = append(h.Events, core.Event{Ev: "save", Name: name})
+			h.Events = append(h.Events, core.Event{Ev: "save", Name: qn})
 		case k < 9:
-			h.Events = append(h.Events, core.Event{Ev: "load", Name: name})
+			h.Events = append(h.Events, core.Event{Ev: "load", Name: qn})
 		case k < 10:
-			h.Events = append(h.Events, core.Event{Ev: "image", Name: name})
+			h.Events = append(h.Events, core.Event{Ev: "image", Name: qn})
 		case k < 11:
 			h.Events = append(h.Events, core.Event{Ev: "exec", Text: core.Pick(r, []string{`exec("touch", "pwned_by_exec")`, `run("touch", "pwned_by_run")`, `exec("sh", "-c", "echo x > ../pwned")`})})
 		default:
@@ -159,23 +161,23 @@ var plainName = regexp.MustCompile(`^[A-Za-z0-9_]*(\.gr)?$`)
 func grolString(s string) string { return quoteGrol(s) }
 
 type c17Result struct {
-	Viol   *core.Violation `json:"viol"`
-	Shape  []string        `json:"shape"`
-	Escape int             `json:"escapes_seen_in_control"`
-	Hostile int            `json:"hostile"`
-	Accepted int           `json:"accepted"`
-	Rejected int           `json:"rejected"`
-	Ticks  int64           `json:"ticks"`
+	Viol     *core.Violation `json:"viol"`
+	Shape    []string        `json:"shape"`
+	Escape   int             `json:"escapes_seen_in_control"`
+	Hostile  int             `json:"hostile"`
+	Accepted int             `json:"accepted"`
+	Rejected int             `json:"rejected"`
+	Ticks    int64           `json:"ticks"`
 }
 
 var c17Decoys = map[string]string{
-	"outside.gr":        "marker_outside = 111\n",
-	"sibling/decoy.gr":  "marker_sibling = 222\n",
-	"work/sub/x.gr":     "marker_sub = 333\n",
-	"work/secret":       "marker_secret = 444\n",
-	"work/x.gr.bak":     "marker_bak = 555\n",
-	"work/existing.gr":  "marker_existing = 666\n",
-	"sentinel_parent":   "do not touch\n",
+	"outside.gr":       "marker_outside = 111\n",
+	"sibling/decoy.gr": "marker_sibling = 222\n",
+	"work/sub/x.gr":    "marker_sub = 333\n",
+	"work/secret":      "marker_secret = 444\n",
+	"work/x.gr.bak":    "marker_bak = 555\n",
+	"work/existing.gr": "marker_existing = 666\n",
+	"sentinel_parent":  "do not touch\n",
 }
 
 var forbiddenMarkers = []string{"marker_outside", "marker_sibling", "marker_sub", "marker_secret", "marker_bak"}
@@ -219,6 +221,9 @@ func c17Worker(args []string) int {
 	savedOnce := false
 	for i := range h.Events {
 		e := &h.Events[i]
+		if uq, err := strconv.Unquote(e.Name); err == nil {
+			e.Name = uq
+		}
 		var src string
 		switch e.Ev {
 		case "save":
